@@ -748,6 +748,13 @@ fn corpus() -> Vec<(bool, AProg, Spell)> {
         }
         v.push((true, p(vec![s(St::Blkw(pad)), s(St::Br(7, Loc::Lit(0xFFFE))), s(St::Br(7, Loc::Lit(2))), s(St::Named(5)), s(St::Named(5)), s(St::Ld(0, Loc::Lit(0xFFFD)))], &[]), Spell::Dec));
     }
+    // one string literal whose source text is around and beyond 65,535 bytes (a 16-bit span
+    // length), made of multi-byte characters so that the program stays far below the memory limit
+    for (ch, bytes) in [("é", 65_530usize), ("é", 65_534), ("é", 65_536), ("é", 65_538), ("中", 65_535), ("中", 65_538), ("中", 70_002), ("😀", 65_536)] {
+        let n = (bytes - 2) / ch.len();
+        let text: String = ch.repeat(n);
+        v.push((true, p(vec![It::Stmt(Some(0), St::Strz(text)), s(St::Fill(0xBEEF)), It::Stmt(Some(1), St::Lea(0, Loc::Label(1)))], &["msg", "after"]), Spell::Hex));
+    }
     // D7: 65,535 words exactly, and one more
     v.push((true, p(vec![s(St::Blkw(0xFFFF))], &[]), Spell::Hex));
     v.push((true, p(vec![s(St::Blkw(0xFFFE)), s(St::Named(5))], &[]), Spell::Hex));
